@@ -18,6 +18,8 @@ import Driver.Proto
                                            function and keeps only the lengths; the flat packing arm answers `(pad8 elems).length / 8`.
                                            The values are compared by the harness with its native coordinate reference, which the harness
                                            compares with the full model answer on every other unpack / pack / round-trip case of the run.
+    unpack_g / pack_g / roundtrip_g        giant inputs `shape:@pattern` (2^20 .. 1.7·10^7 elements, data built by the harness): order and axis
+                                           checks of the model, result shape by axis for lanes ≤ 200 000 elements, otherwise `native`
     seq <case> / <case> / …                several cases on one thread, answers joined by ` / ` (hidden state between calls)
     oracle_report …                        bookkeeping line of the harness
 
@@ -110,8 +112,51 @@ def packShape (a : Arr Nat) (ax : Option Int) (ord : Option Spelling) : Res (Arr
     | .panic => .panic
     | .ok _ => if a.isEmpty then .ok ⟨[], [0]⟩ else .ok ⟨[], [(pad8 a.elems).length / 8]⟩
 
+/-! ### giant inputs (`*_g`, part 3): arrays of 2^20 .. 1.7·10^7 elements named `shape:@pattern` (the harness builds the data)
+
+The model's own checks run on the real definitions: `optOrder`, `axisCheck` (through `unpackBits` / `packBits` themselves for the
+axis forms).  By axis with lanes of at most `giantLaneMax` elements the answer is the outcome class and RESULT SHAPE exactly as for
+`*_n` (`alongShape` / `packShape` on a one-element stand-in for the data: the `Along`s used here never look at the elements, only
+`isEmpty` does, and giant shapes have no zero-length axis).  For the flat forms and longer lanes the list-backed model is not run
+(a 1.7·10^7-element `List Nat` is ~0.5 GB): the answer is `native` after the order / axis checks — the harness then compares the
+crate with its native coordinate reference alone, which it compares with the full model answer on every small case of the run. -/
+def giantLaneMax : Nat := 200000
+
+def parseGiant? (s : String) : Option (List Nat) :=
+  match s.splitOn ":" with
+  | [sh, pat] => if pat.startsWith "@" then parseNatList? sh else none
+  | _ => none
+
+def giantChecks (shape : List Nat) (ax : Option Int) (ord : Option Spelling) : Res Unit :=
+  match optOrder ord with
+  | .err e => .err e
+  | .panic => .panic
+  | .ok _ => axisCheck shape.length ax
+
+def giantLaneOk (shape : List Nat) (ax : Option Int) : Bool :=
+  match ax with
+  | none => false
+  | some x => shape.getD (C19.normalizeAxis shape.length x) 0 ≤ giantLaneMax
+
+def giantAnswer (shape : List Nat) (ax : Option Int) (ord : Option Spelling) (full : Unit → Res (Arr Nat)) : String :=
+  match giantChecks shape ax ord with
+  | .err e => "err " ++ e.name
+  | .panic => "panic"
+  | .ok _ => if shape.prod == 0 then "native" else if giantLaneOk shape ax then showRes showShapeOnly (full ()) else "native"
+
 def handle1 (op : String) (args : List String) : Option String :=
   match op, args with
+  | "unpack_g", [a, ax, cnt, ord] => do
+    let sh ← parseGiant? a; let ax ← parseOpt? parseInt? ax; let cnt ← parseOpt? parseInt? cnt
+    let ord ← parseOrder? ord
+    some (giantAnswer sh ax ord fun _ => unpackBits alongShape ⟨[0], sh⟩ ax cnt ord)
+  | "pack_g", [a, ax, ord] => do
+    let sh ← parseGiant? a; let ax ← parseOpt? parseInt? ax; let ord ← parseOrder? ord
+    some (giantAnswer sh ax ord fun _ => packShape ⟨[0], sh⟩ ax ord)
+  | "roundtrip_g", [a, ax, ord] => do
+    let sh ← parseGiant? a; let ax ← parseOpt? parseInt? ax; let ord ← parseOrder? ord
+    some (giantAnswer sh ax ord fun _ => unpackBits alongShape ⟨[0], sh⟩ ax none ord >>= fun u =>
+      if (u.shape.getD (C19.normalizeAxis sh.length (ax.getD 0)) 0) ≤ 8 * giantLaneMax then packShape ⟨[0], u.shape⟩ ax ord else .panic)
   | "unpack_n", [a, ax, cnt, ord] => do
     let a ← parseBytes? a; let ax ← parseOpt? parseInt? ax; let cnt ← parseOpt? parseInt? cnt
     let ord ← parseOrder? ord
